@@ -72,7 +72,7 @@ def cargo_build(binname, profile):
     return os.path.join(TARGET, profile, binname), dt
 
 
-def record(binpath, tier, seed, outfile, extra=None, timeout=1800, env=None):
+def record(binpath, tier, seed, outfile, extra=None, timeout=1800, env=None, crash_ok=None):
     cmd = [binpath, "--tier", tier, "--seed", str(seed), "--out", outfile] + (extra or [])
     t0 = time.time()
     try:
@@ -81,8 +81,16 @@ def record(binpath, tier, seed, outfile, extra=None, timeout=1800, env=None):
         raise ToolError("recorder timed out after %ss" % timeout)
     out, dt = p.stdout, time.time() - t0
     if p.returncode != 0 or not os.path.exists(outfile):
-        # a crash of the recorder itself (outside a recorded call) is a tool error, never a verdict
-        raise ToolError("recorder failed (exit %s): %s" % (p.returncode, out[-2000:]))
+        # a crash of the recorder itself (outside a recorded call) is a tool error, never a verdict; but the events it
+        # had written are still judged (crash_ok: a list that receives the description), so that a change which makes
+        # the recorder die in one place cannot hide the rejected events it produced elsewhere
+        msg = "recorder failed (exit %s): %s" % (p.returncode, out[-2000:])
+        if crash_ok is None or not os.path.exists(outfile):
+            raise ToolError(msg)
+        data = open(outfile, "rb").read()
+        cut = data.rfind(b"\n") + 1
+        open(outfile, "wb").write(data[:cut])
+        crash_ok.append(msg)
     return dt
 
 
@@ -283,6 +291,7 @@ def check_r2(prop, tier, seed, spec):
 
     outcome_counts = {}
     rec_env = {}
+    crashes = []
     if "pre" in spec:
         # scenario generation from the specification (R3): TLC enumerates/simulates the state machine
         pre = spec["pre"](prop, tier, seed, wdir)
@@ -295,7 +304,7 @@ def check_r2(prop, tier, seed, spec):
     for profile, label in (("release", "rel"), ("chk", "chk")):
         binpath, bdt = cargo_build(spec["bin"], profile)
         trace = os.path.join(wdir, "trace_%s.ndjson" % label)
-        rdt = record(binpath, tier, seed, trace, extra=spec.get("record_args", {}).get(tier), env=rec_env)
+        rdt = record(binpath, tier, seed, trace, extra=spec.get("record_args", {}).get(tier), env=rec_env, crash_ok=crashes)
         res, n = validate_trace(trace, wdir, label, spec.get("judges", [prop]))
         totals["events"] += n
         totals["shards"] += len(res)
@@ -414,6 +423,11 @@ def check_r2(prop, tier, seed, spec):
         rejected_events=len(violations) + sum(known.values()), known_findings_matched=known, path_coverage=path_cov, word_lemmas_at_W64=lemmas,
         exhaustive=False)
     write_evidence(prop, tier, seed, "model_checking", coverage, spec.get("assumptions", []), time.time() - t0, len(violations))
+    if crashes:
+        for c in crashes:
+            log("[%s] NOTE: %s" % (prop, c.split("\n")[0][:300]))
+        if not violations:
+            raise ToolError("; ".join(c[:500] for c in crashes))
     return 1 if violations else 0
 
 
